@@ -146,7 +146,7 @@ def binLoop {n} (G : AMat Nat n) : Nat → BinSt n → Except BErr (BinSt n)
   | fuel + 1, st =>
     if !anyNZ st.NSPd then .ok st else
     let d := st.d + 1
-    let NPd := matMul st.NPd G
+    let NPd := matMul st.NSPd G   -- `NPd = np.dot(NSPd, G)`: only shortest paths are extended (counts stay finite)
     let NSPd : AMat Nat n := AMat.ofFn fun i j => if st.Lm.get i j = 0 then NPd.get i j else 0
     let NSP : AMat Nat n := AMat.ofFn fun i j => st.NSP.get i j + NSPd.get i j
     let Lm : AMat Nat n := AMat.ofFn fun i j => st.Lm.get i j + (if NSPd.get i j != 0 then d else 0)
